@@ -45,6 +45,17 @@ class Node:
 CHILD_KIND = {'seg': 'fld', 'fld': 'cmp', 'cmp': 'sub'}
 
 
+def text_order(node):
+    """A copy by value travels through text: in the copy the fields of a segment (components of a field,
+    ...) are listed in position order, repetitions in their order, whatever the insertion order of the
+    original was (visible to children[i] / pop(i) only, never to the encoding)."""
+    if node.kind in ('seg', 'fld', 'cmp'):
+        node.kids.sort(key=lambda k: k.key)       # stable: repetitions keep their order
+    for k in node.kids:
+        text_order(k)
+    return node
+
+
 def has_empty(node):
     """Does the subtree hold a present-but-empty element (a field / component without children, a
     subcomponent without text)?  Such an element has no counterpart in text: the model does not say how
